@@ -257,7 +257,7 @@ def contention_records(draw):
             incs.append(gen_records.inc_units(draw, 'fall', thr_units))
         for _ in range(draw(st.integers(4, 14))):
             rain.append(gen_records.rain_value(draw, draw(st.sampled_from(
-                ['heavy', 'heavy', 'heavy', 'drizzle'])), s))
+                ['heavy', 'heavy', 'hair', 'drizzle'])), s))
             incs.append(gen_records.inc_units(draw, draw(st.sampled_from(
                 ['jump', 'jump', 'jump', 'small'])), thr_units))
     rain.append(0.0)
@@ -298,7 +298,8 @@ def chain_records(draw):
         length = draw(st.integers(1, 5))
         brk = draw(st.integers(0, length - 1))
         for step in range(length):
-            rain.append(gen_records.rain_value(draw, 'heavy', s))
+            rain.append(gen_records.rain_value(draw, draw(st.sampled_from(
+                ['heavy', 'heavy', 'heavy', 'hair'])), s))
             if step == brk and draw(st.integers(0, 4)) > 0:
                 incs.append(gen_records.inc_units(draw, 'small', thr_units))
             else:
@@ -318,16 +319,21 @@ def chain_records(draw):
 
 
 def check_records(case):
-    s, j = case['s'], case['j']
-    connection = cc.load_or_reject(case)
-    try:
-        error = cc.classify_memory(connection, s, j)
-        if error is not None:
-            cc.raise_classify_error(error, connection)
-        step, labels, stretches, models = cc.model_of(connection, s, j)
-        t = cc.tables(connection)
-    finally:
-        connection.close()
+    """The recorded pairing against the candidate graph of the reference
+    model; threshold*step and the increments are read exactly and as
+    rounded doubles (C03), the pairing must be right under one reading."""
+    from vfw.props.C03 import classify_and_model
+    step, labels, stretches, t, _depth, readings = classify_and_model(case)
+    failure = None
+    for models in readings:
+        try:
+            return _check_pairing(case, step, labels, stretches, t, models)
+        except Violation as vio:
+            failure = failure or vio
+    raise failure
+
+
+def _check_pairing(case, step, labels, stretches, t, models):
     out = cc.record_labels(case, labels, stretches, models)
     pair_of_rise = dict(t['pairs'])
     for label, m in models.items():
